@@ -764,6 +764,88 @@ pub fn arb_case(valid_only: bool) -> impl Strategy<Value = Case> {
     (source, proptest::collection::vec(arb_mutation(), nmut), proptest::collection::vec(prop_oneof![1u16..4, 4u16..24, 24u16..400], 0..4)).prop_map(|(source, muts, cuts)| Case { source, muts, cuts })
 }
 
+// ---------------------------------------------------------------------------
+// session level: bursts of complete frames through the daemon's own read loop
+// (PeerSession::run_select: receive buffer + repeated try_parse) over a real connection
+// ---------------------------------------------------------------------------
+
+pub const BURST_RULE: &str = "session-burst: over a real loopback session (established first), one burst of 1..900 complete frames (KEEPALIVE, End-of-RIB UPDATE or a mix, optionally ending in a frame of an unknown type) written in one piece or in generated fragments, then silence. Every frame of the burst must be consumed without further input: the daemon's receive counter reaches the number of frames sent (and the bad frame is answered by its NOTIFICATION) within a real-time budget of several seconds where milliseconds suffice; frames left in the receive buffer are a stall. non-trivial := more than 128 frames in one write";
+
+#[derive(Clone, Debug, Serialize, Deserialize)]
+pub struct BurstCase {
+    pub n: u16,
+    /// 0 = KEEPALIVEs, 1 = End-of-RIB UPDATEs, 2 = alternating
+    pub kind: u8,
+    pub tail_bad: bool,
+    pub chunks: Vec<u16>,
+}
+
+pub fn check_burst(c: &BurstCase) -> CheckResult {
+    let rt = tokio::runtime::Builder::new_current_thread().enable_all().event_interval(1).build().map_err(|e| Failure::new("harness", e.to_string()))?;
+    rt.block_on(burst(c))
+}
+
+async fn burst(c: &BurstCase) -> CheckResult {
+    use crate::event::verif::NeighborCfg;
+    use crate::props::wirepeer::{WirePeer, fresh_loopback};
+    use packet::bgp::Capability;
+    let src = fresh_loopback();
+    let cfg = NeighborCfg { addr: src, remote_asn: 65100, local_asn: 0, rs_client: false, rr_client: false, cluster_id: None, admin_down: false, holdtime: 90, families: vec![(packet::Family::IPV4, 0)], prefix_limit: None, gr: None, llgr: None };
+    let mut p = WirePeer::new(65000, cfg).await?;
+    p.connect().await?;
+    if !p.establish(65100, 0, 0x0a00_0003, vec![Capability::MultiProtocol(packet::Family::IPV4), Capability::FourOctetAsNumber(65100)]).await? {
+        return Err(Failure::new("harness", "the session did not establish".to_string()));
+    }
+    let before = p.rig.rx_frames(src).await;
+    let n = c.n.max(1) as u64;
+    let mut bytes = Vec::new();
+    for i in 0..n {
+        bytes.extend_from_slice(&[0xff; 16]);
+        let update = match c.kind % 3 {
+            0 => false,
+            1 => true,
+            _ => i % 2 == 1,
+        };
+        if update {
+            bytes.extend_from_slice(&[0, 23, 2, 0, 0, 0, 0]);
+        } else {
+            bytes.extend_from_slice(&[0, 19, 4]);
+        }
+    }
+    if c.tail_bad {
+        bytes.extend_from_slice(&[0xff; 16]);
+        bytes.extend_from_slice(&[0, 19, 0x63]);
+    }
+    let chunks: Vec<usize> = c.chunks.iter().map(|x| *x as usize).collect();
+    p.write_only(&bytes, &chunks).await?;
+    // nothing more is sent: the burst must be consumed on its own
+    let mut got = 0;
+    let mut done = false;
+    for _ in 0..8000 {
+        p.settle().await;
+        got = p.rig.rx_frames(src).await - before;
+        if got >= n && (!c.tail_bad || p.is_closed()) {
+            done = true;
+            break;
+        }
+    }
+    if !done {
+        return Err(Failure::new("session-stall", format!("{got} of the {n} frames of one burst were consumed{}; nothing more happens without further input from the peer", if c.tail_bad { format!(", the trailing bad frame answered: {}", p.is_closed()) } else { String::new() })).with("consumed_all", got >= n));
+    }
+    if c.tail_bad && !p.notifications().contains(&(1, 3)) {
+        return Err(Failure::new("session-stall", format!("the frame of unknown type at the end of the burst was not answered with Bad Message Type (sent: {:?})", p.notifications())).with("consumed_all", true));
+    }
+    let mut info = CaseInfo::nt(n > 128 && c.chunks.is_empty());
+    if n > 128 {
+        info = info.class("burst-over-128-frames");
+    }
+    Ok(info)
+}
+
+pub fn arb_burst() -> impl Strategy<Value = BurstCase> {
+    (prop_oneof![2 => 1u16..40, 2 => 100u16..300, 2 => 300u16..900], 0u8..3, prop::bool::weighted(0.4), prop_oneof![3 => Just(vec![]), 1 => proptest::collection::vec(prop_oneof![1u16..30, 100u16..5000], 1..4)]).prop_map(|(n, kind, tail_bad, chunks)| BurstCase { n, kind, tail_bad, chunks })
+}
+
 pub fn run(r: &Run) {
     r.set_rule(RULE);
     r.assume("the decoding codec is the one the daemon would negotiate for generated capability sets; a decoder that is called again without consuming input is detected by an iteration bound (bytes+1); a single decoder call that does not return within 60 s (other inputs take microseconds) is reported as a stall by the engine's per-case watchdog, with the input as replay");
@@ -771,9 +853,14 @@ pub fn run(r: &Run) {
     r.assume("RTR: a PDU whose length field is at least 8 and fully buffered is a complete frame (RFC 8210 §5); BGP: header length within [19, negotiated max] and fully buffered");
     r.prop("mutated-streams", r.tier.pick(120_000, 4_000_000), || arb_case(false), check);
     r.prop("valid-streams-fragmented", r.tier.pick(20_000, 500_000), || arb_case(true), check);
+    r.assume(BURST_RULE);
+    r.prop("session-burst", r.tier.pick(1_500, 40_000), arb_burst, check_burst);
 }
 
-pub fn replay(_sub: &str, case: &Value) -> Result<CheckResult, String> {
+pub fn replay(sub: &str, case: &Value) -> Result<CheckResult, String> {
+    if sub == "session-burst" {
+        return Ok(check_burst(&decode_case(case)?));
+    }
     let c: Case = decode_case(case)?;
     Ok(check(&c))
 }
